@@ -31,7 +31,8 @@ LEAN_MODULES = ["LunaVerif.Props.C25", "LunaVerif.Lemmas.C25Tx12", "LunaVerif.Le
                 "LunaVerif.Lemmas.C25RxDriftFront", "LunaVerif.Lemmas.C25RxDriftBack", "LunaVerif.Props.C25RxDrift",
                 "LunaVerif.Lemmas.C25RxCdcDriftFifo", "LunaVerif.Lemmas.C25RxCdcDriftStreams",
                 "LunaVerif.Lemmas.C25RxCdcDriftCross", "LunaVerif.Lemmas.C25RxCdcDriftPacket",
-                "LunaVerif.Props.C25RxUsbDrift"]
+                "LunaVerif.Props.C25RxUsbDrift", "LunaVerif.Lemmas.C25RxCdcDriftErr",
+                "LunaVerif.Props.C25RxUsbDriftErr"]
 DRIVER = "Driver/C25.lean"
 REQUIRED_THEOREMS = ["decode_encode", "no_seven_ones_on_wire", "stuff_error_detected", "never_drives_in_nondriving",
                      "pulls_follow_requests",
@@ -55,7 +56,8 @@ REQUIRED_THEOREMS = ["decode_encode", "no_seven_ones_on_wire", "stuff_error_dete
                      # the clock-domain crossing under clock drift
                      "fifo_write17", "fifo_window", "fifo_vstream", "outs_vstreams", "run_packetD_outs", "seg_append",
                      "seg_start", "seg_bytes", "seg_last", "pays_spaced7_any", "split_last", "data_tail_seg",
-                     "packet_seg", "rx_delivers_to_usb_drift", "rx_packets_to_usb_drift"]
+                     "packet_seg", "rx_delivers_to_usb_drift", "rx_packets_to_usb_drift", "err_seen_core",
+                     "stuff_error_seen_by_usb_drift", "stuff_error_seen_by_usb_drift_env"]
 RULE = ("tx: packets of 1..70 random / all-ones / stuffing-boundary bytes, tx_data garbage between packets, random "
         "inter-packet gaps, the producer holds each byte until tx_ready; the D+/D- waveform is compared bit by bit "
         "with the Lean `encode` and with an independent Python encoder.  txc/txp: the cycle-level Lean model of the "
@@ -132,7 +134,9 @@ ASSUMPTIONS = [
     "any constant phase; both FIFOs empty and settled when the packet starts (any pointer position / memory contents; "
     "true 15 cycles after reset and 27 idle cycles after the previous packet); the packet has at least one byte; "
     "Amaranth 0.5.9's AsyncFIFOBuffered as modelled in Model/Phy/FsRxCdc.lean (tied to the real one by the rxd cases)",
-    "end-to-end receive theorems under clock drift (rx_delivers_to_usb_drift, rx_packets_to_usb_drift): the drift + skew "
+    "end-to-end receive theorems under clock drift (rx_delivers_to_usb_drift, rx_packets_to_usb_drift; "
+    "stuff_error_seen_by_usb_drift for any `trackable` cell stream, i.e. slips further apart than the longest run of the "
+    "illegal packet, stuff_error_seen_by_usb_drift_env): the drift + skew "
     "envelope of rx_pipeline_decodes_encode_drift (DriftOk, SkewOk) and the environment of rx_delivers_to_usb (usb = "
     "usb_io / 4 edge aligned, any constant phase; both FIFOs empty and settled at the packet start, any pointers / "
     "memory; at least one byte; at least 4 (m + 7) + 3 idle samples, m >= 0, after the second SE0 before the next "
@@ -166,10 +170,13 @@ PARTIAL = ("Transmit direction fully in theorems over the cycle-level model that
            "(rx_delivers_to_usb_drift, rx_packets_to_usb_drift; each AsyncFIFOBuffered, the same register-level model as "
            "in the nominal-rate theorems, never holds more than one entry: a write is shown at the 4th usb-edge cycle "
            "after it and the FIFO is empty again 16 cycles after the write, fifo_write17, writes >= 24 cycles apart, "
-           "pays_spaced7_any).  NOT in a theorem (co-simulation only, incl. the drifting cell streams of the envelope): "
-           "that the 12 MHz side SEES the latched bit-stuffing error while rx_active is high under drift "
-           "(stuff_error_seen_by_usb assumes four samples per bit; stuff_error_detected_cycle_drift proves the latch in "
-           "the 48 MHz domain); "
+           "pays_spaced7_any).  A packet with seven consecutive 1s anywhere, as any trackable cell stream, "
+           "shows rx_error while rx_active is high at a usb edge, for every usb clock phase "
+           "(stuff_error_seen_by_usb_drift).  So nothing of the property is left outside theorems except (a) the "
+           "stated envelope and (b) the FIFO abstraction: the theorems are over `FsRxCdc.Fifo`, the register-level model "
+           "of Amaranth 0.5.9's AsyncFIFOBuffered(depth=4) (Gray pointers, 2-FF synchronizers as plain flops, usb = "
+           "usb_io / 4 edge aligned with a constant phase -- no metastability, no phase wander between the two clocks), "
+           "tied to the real FIFO by the rxd co-simulation only.  Outside the envelope (co-simulation only): "
            "jitter beyond one sample per 8 cells, a skew between the two lines of more than one "
            "sample, glitches inside a cell; packets without any byte (SYNC directly followed by EOP) are outside "
            "rx_delivers_to_usb (start and end flags would be in flight in the flags FIFO together).")
